@@ -118,7 +118,51 @@ def c26(ck, F, tier):
     guarded(ck, io.bytes_roundtrip_shape, F)
 
 
-PROPS = {"C01": c01, "C02": c02, "C03": c03, "C04": c04, "C23": c23, "C26": c26}
+def c08(ck, F, tier):
+    import rules_fin
+    from effects import Program
+    ck.explanation = (
+        "Static decision of the sink discipline: every construction of FormulaValue::Number, SpillValue::Number and "
+        "Cell::NumberCell in both crates (derive-generated Clone/Decode excluded) has its f64 operand (i) a literal, "
+        "(ii) copied from an already stored number field, or (iii) dominated by an is_nan/is_infinite/is_finite test on the "
+        "same value whose failing edge cannot reach the construction; constructors that merely forward a parameter move the "
+        "obligation to every call site (depth 3). The property is about the sinks, so this is the property's own clause, "
+        "not a proxy; which function overflows is irrelevant.")
+    ck.rule("FIN", "stored numbers are literal, copied from storage, or finite-guarded", floor=9)
+    ck.assume("bitcode-decoded workbooks were produced by to_bytes of a workbook satisfying the property (Decode impls are not sinks)")
+    guarded(ck, rules_fin.fin_rule, F, Program(F))
+
+
+def c17(ck, F, tier):
+    import rules_walk as rw
+    ck.explanation = (
+        "Static decision of the rename rewrite's structure: (GUARD) in rename_sheet_in_node every store of a value derived "
+        "from the new name into a Node's sheet_name is control-dependent on an equality between the node's sheet index and the "
+        "renamed sheet's index; (COVER-walk) the walker has an arm for every child-bearing Node variant that reads every child "
+        "field and recurses at least once per child field (no reference below an operator, function, lambda or implicit "
+        "intersection is skipped). Values after rename/move/duplicate are not decided.")
+    ck.rule("GUARD", "rename of a node's sheet name is guarded by an index comparison", floor=3)
+    ck.rule("COVER-walk", "walkers recurse into every child-bearing variant", floor=12)
+    guarded(ck, rw.rename_guard, F)
+    guarded(ck, rw.cover_walk, F, "COVER-walk", "stringify::rename_sheet_in_node")
+
+
+def c29(ck, F, tier):
+    import rules_attr as ra
+    ck.explanation = (
+        "Static decision of attribute independence at the descriptor setters (provenance of every stored field): in "
+        "set_column_width_and_style the target descriptor (fresh or in place) takes width/custom_width/hidden/style from the "
+        "same-named parameters and the pre/post split descriptors copy every attribute from the same field of the descriptor "
+        "they replace; set_column_style/width/hidden pass, for the attributes they do not change, a getter that reads only "
+        "that attribute's stored fields; set_row_style/hidden/height overwrite only their own attribute's fields of an "
+        "existing row and build a new row from the parameter plus defaults/current values.")
+    ck.rule("ATTR-FLOW", "each stored descriptor field comes from the right parameter / same field / stored getter", floor=40)
+    guarded(ck, ra.column_flow, F)
+    guarded(ck, ra.column_wrappers, F)
+    guarded(ck, ra.row_flow, F)
+
+
+PROPS = {"C08": c08, "C29": c29, "C17": c17, "C01": c01, "C02": c02, "C03": c03, "C04": c04, "C23": c23, "C26": c26}
 
 
 def run(pid, tier):
